@@ -45,6 +45,7 @@ func c07Cases(level int) []SCase {
 		{"str", J{"type": "string", "minLength": 2}},
 		{"obj", J{"type": "object", "properties": J{"k": J{"type": "string"}}, "required": A{"k"}}},
 		{"nstr", J{"type": A{"string", "null"}}},
+		{"null", J{"type": "null"}},
 	}
 	maxDepth := 2
 	if level >= 1 {
@@ -73,7 +74,7 @@ func c07Cases(level int) []SCase {
 				ls = append(ls, c.String())
 			}
 			for _, el := range elems {
-				if depth == 3 && (el.name == "obj" || el.name == "nstr") {
+				if depth == 3 && (el.name == "obj" || el.name == "nstr" || el.name == "null") {
 					continue
 				}
 				arr := build(chosen, el.s)
@@ -84,6 +85,12 @@ func c07Cases(level int) []SCase {
 				if depth <= 2 {
 					cases = append(cases, SCase{ID: "C07/def/" + name, Cfg: baseCfg(), Axes: ax("def"),
 						Schema: J{"type": "object", "properties": J{"d": J{"$ref": "#/$defs/D"}, "do": J{"$ref": "#/$defs/D"}}, "required": A{"d"}, "$defs": J{"D": arr}}})
+				}
+				if depth >= 2 && el.name == "int" {
+					// the inner arrays explicitly nullable ([array,null] / [null,array]): a null row is valid and is never length-checked
+					na := nullableInner(arr, depth%2)
+					cases = append(cases, SCase{ID: "C07/props-nullable-rows/" + name, Cfg: baseCfg(), Axes: ax("props-nullable-rows"),
+						Schema: J{"type": "object", "properties": J{"r": na, "o": na}, "required": A{"r"}}})
 				}
 				if depth == 1 && (el.name == "int" || el.name == "str") {
 					// the same array with a default (a valid value chosen by the reference model): an explicit array is still checked
@@ -121,4 +128,22 @@ func c07Cases(level int) []SCase {
 		elems = save
 	}
 	return cases
+}
+
+// nullableInner returns a copy of a nested array schema in which every array below the outermost one also admits null.
+func nullableInner(arr J, order int) J {
+	o := space.Clone(arr)
+	cur := o
+	for {
+		it, ok := cur["items"].(J)
+		if !ok || it["type"] != "array" {
+			return o
+		}
+		if order == 0 {
+			it["type"] = A{"array", "null"}
+		} else {
+			it["type"] = A{"null", "array"}
+		}
+		cur = it
+	}
 }
